@@ -1,6 +1,7 @@
 \* stage C: recorded executions of a 5-node SvsInst, Mode "open", deviations off (pass 1).
 \* TRACE_FILE=<ndjson> in the environment. harness/props/c18.py generates this (and the
-\* deviations-on variant, Dev = {"aggLocal","noSeq","postponed"}) into build/.
+\* deviations-on variant, Dev = {"aggLocal","noSeq","postponed"}) into build/; for the executions of large groups
+\* NodeOrder <- Nodes25 / Nodes21 / Nodes41 / Nodes101 and MaxSeq = HiSeq + HiSpan (scaled classes).
 SPECIFICATION TSpec
 CONSTANTS
   NodeOrder <- Nodes5
